@@ -501,30 +501,32 @@ func c11Stats(p *chk.Prog, r *chk.Report) {
 			return ok && rf.MatchWith("v1beta1.IPAddressPoolStatus{AssignedIPv4: C.AssignedIPv4, AssignedIPv6: C.AssignedIPv6, AvailableIPv4: C.AvailableIPv4, AvailableIPv6: C.AvailableIPv6}", e, chk.H("C", c)) != nil
 		})
 		y.Check("PoolStatusReconciler:field-map", rf.Pos(), len(lits) == 1, "", "the pool status is not the allocator's counters copied name for name")
-		es := g.EdgesImplying(g.GErrNil(false, "RECV.Client.Status().Update(ETC)"))
-		ok := len(es) == 1
-		for _, e := range es {
-			cond, _ := e.B.Nodes[len(e.B.Nodes)-1].(ast.Expr)
-			// the error test must be the bare `err != nil`
-			if cond == nil || rf.MatchNew("E != nil", cond) == nil {
-				ok = false
-			}
-			w := g.BranchAlways(e, func(n ast.Node) bool {
-				rt, okk := n.(*ast.ReturnStmt)
-				return okk && len(rt.Results) == 2 && !rf.IsNilLit(rt.Results[1])
-			})
-			ok = ok && !w.Found
-		}
-		// every nil-error return after the write is dominated by the write having succeeded
+		// after the write, nil is returned only when the write succeeded; any other return hands back the write's own
+		// error (the call itself, or the variable holding its result) or a fresh error
 		updOK := g.GErrNil(true, "RECV.Client.Status().Update(ETC)")
-		for _, u := range g.FindPat("RECV.Client.Status().Update(ETC)") {
+		ups := g.FindPat("RECV.Client.Status().Update(ETC)")
+		ok := len(ups) >= 1
+		isUpd := func(e ast.Expr) bool { return rf.MatchNew("RECV.Client.Status().Update(ETC)", e) != nil }
+		for _, u := range ups {
 			w := (&chk.Walk{G: g, From: u, Hit: func(n ast.Node) bool {
 				rt, okk := n.(*ast.ReturnStmt)
-				if !okk || len(rt.Results) != 2 || !rf.IsNilLit(rt.Results[1]) {
+				if !okk || len(rt.Results) != 2 {
+					return okk
+				}
+				res := rt.Results[1]
+				site := g.FactSite(rt.Results[0])
+				switch {
+				case rf.IsNilLit(res):
+					return !g.Dominated(site, updOK)
+				case isUpd(ast.Unparen(res)), rf.KnownNonNil(res):
 					return false
 				}
-				site := g.FactSite(rt.Results[0])
-				return !g.Dominated(site, updOK)
+				if id, isId := ast.Unparen(res).(*ast.Ident); isId {
+					if rhs, idx := g.DefOf(id, site); rhs != nil && idx == 0 && isUpd(ast.Unparen(rhs)) {
+						return false
+					}
+				}
+				return true
 			}}).Run()
 			if w.Found {
 				ok = false
